@@ -282,6 +282,50 @@ theorem statement_fullOrder {x : ℕ} {base : Bytes} (hB : go.Canon base) (hfull
   rw [(complete go x hB tr tape).2.1]; exact hfull.smul_unit hx
 
 /-! ## non-vacuity: the toy oracle (`G = Zq`, generator 1, merlin answers `T ↦ T.init`) -/
+/-! ## sequences of proofs on one transcript (`prove` and `verify` take `&mut Transcript`) -/
+
+section Sequences
+variable {h : Query → Bytes} {G : Type} [AddCommGroup G] [Module Zq G] (go : GroupOracle h G)
+
+/-- `proveAdv` is `prove` plus the advanced transcript, and that transcript is `fsTranscript y t base tr`:
+    a function of the statement, the commitment, the base point and the previous transcript only -/
+theorem proveAdv_eq (x : ℕ) (base : Bytes) (tr : Transcript) (tape : Tape) :
+    Id.run (proveAdv (pureO h) x base tr tape) =
+      ((proveP h x base tr tape).1, (proveP h x base tr tape).2.1, (proveP h x base tr tape).2.2,
+        fsTranscript (proveP h x base tr tape).2.1 (proveP h x base tr tape).1.t base tr) := by
+  rw [proveP_eq]
+  simp only [proveAdv, Id.run, pureO, bind, pure, fiatShamir_pure, challengeOf, fsTranscript_eq]
+  rfl
+
+/-- `verifyAdv` is `verify` plus the advanced transcript — the SAME transcript the prover ends with -/
+theorem verifyAdv_eq (p : Proof) (y base : Bytes) (tr : Transcript) :
+    Id.run (verifyAdv (pureO h) p y base tr) = (verifyP h p y base tr, fsTranscript y p.t base tr) := by
+  rw [verifyP_eq]
+  simp only [verifyAdv, Id.run, pureO, bind, pure, challengeOf, fsTranscript_eq]
+  rfl
+
+/-- C14 for proofs made in a row: after an honest first proof the prover's and the verifier's transcripts coincide, so the
+    second honest proof (any secret, any valid base, any tape) verifies when the verifier replays the sequence — and so on
+    for any number of proofs (the statement is about an arbitrary starting transcript `tr`). -/
+theorem complete_sequence (x₁ x₂ : ℕ) {b₁ b₂ : Bytes} (hB₁ : go.Canon b₁) (hB₂ : go.Canon b₂) (tr : Transcript) (tape : Tape) :
+    let r₁ := Id.run (proveAdv (pureO h) x₁ b₁ tr tape)
+    let v₁ := Id.run (verifyAdv (pureO h) r₁.1 r₁.2.1 b₁ tr)
+    let r₂ := Id.run (proveAdv (pureO h) x₂ b₂ r₁.2.2.2 r₁.2.2.1)
+    let v₂ := Id.run (verifyAdv (pureO h) r₂.1 r₂.2.1 b₂ v₁.2)
+    v₁.1 = true ∧ v₁.2 = r₁.2.2.2 ∧ v₂.1 = true ∧ v₂.2 = r₂.2.2.2 := by
+  intro r₁ v₁ r₂ v₂
+  have e₁ : r₁ = _ := proveAdv_eq (h := h) x₁ b₁ tr tape
+  have ev₁ : v₁ = _ := verifyAdv_eq (h := h) r₁.1 r₁.2.1 b₁ tr
+  have hv₁ : v₁.1 = true := by rw [ev₁, e₁]; exact (complete go x₁ hB₁ tr tape).2.2
+  have ht₁ : v₁.2 = r₁.2.2.2 := by rw [ev₁, e₁]
+  have e₂ : r₂ = _ := proveAdv_eq (h := h) x₂ b₂ r₁.2.2.2 r₁.2.2.1
+  have ev₂ : v₂ = _ := verifyAdv_eq (h := h) r₂.1 r₂.2.1 b₂ v₁.2
+  refine ⟨hv₁, ht₁, ?_, ?_⟩
+  · rw [ev₂, ht₁, e₂]; exact (complete go x₂ hB₂ _ _).2.2
+  · rw [ev₂, ht₁, e₂]
+
+end Sequences
+
 section NonVacuity
 open GroupOracle.Toy Dlog.ToyEx
 
